@@ -767,9 +767,17 @@ func init() {
 
 // payloadGen: generator for the abi unions {SumType, OpCode *uint32, Value any}.
 func payloadGen(known map[string]any, code func(string) (uint32, bool), unknown string) func(g *Gen, v reflect.Value) {
+	// an op code shared by several kinds (two abi bodies with the same code) cannot be told apart by the decoder: a value of such a
+	// kind has no round trip of its own and is outside the domain
+	uses := map[uint32]int{}
+	for n := range known {
+		if c, ok := code(n); ok {
+			uses[c]++
+		}
+	}
 	var names []string
 	for n := range known {
-		if _, ok := code(n); ok {
+		if c, ok := code(n); ok && uses[c] == 1 {
 			names = append(names, n)
 		}
 	}
@@ -792,7 +800,30 @@ func payloadGen(known map[string]any, code func(string) (uint32, bool), unknown 
 		default:
 			n := names[g.Rng.Intn(len(names))]
 			val := reflect.New(reflect.TypeOf(known[n])).Elem()
-			g.Fill(val, "", 4)
+			// the body must be a value of its own type's domain (the depth-limited generator can leave a nested constructor or a
+			// non-E dictionary empty): a body that does not survive its own codec standing alone is not used inside the union -
+			// the stand-alone round trip of that type judges it
+			inDomain := false
+			for tries := 0; tries < 6 && !inDomain; tries++ {
+				val = reflect.New(reflect.TypeOf(known[n])).Elem()
+				g.Fill(val, "", 4)
+				func() {
+					defer func() { _ = recover() }()
+					c := boc.NewCell()
+					if tlb.Marshal(c, val.Interface()) != nil {
+						return
+					}
+					back := reflect.New(val.Type())
+					if tlb.Unmarshal(c, back.Interface()) != nil {
+						return
+					}
+					inDomain = c.BitsAvailableForRead() == 0 && c.RefsAvailableForRead() == 0
+				}()
+			}
+			if !inDomain {
+				v.FieldByName("SumType").SetString("")
+				return
+			}
 			op, _ := code(n)
 			v.FieldByName("SumType").SetString(n)
 			setOp(op)
